@@ -55,7 +55,10 @@ func handleSet(params internal.HandlerFuncParams) ([]byte, error) {
 		if !keyExists {
 			res = []byte("$-1\r\n")
 		} else {
-			res = []byte(fmt.Sprintf("+%v\r\n", params.GetValues(params.Context, []string{key})[key]))
+			res, err = encodeValue(params.Command[0], params.GetValues(params.Context, []string{key})[key])
+			if err != nil {
+				return nil, err
+			}
 		}
 	}
 
@@ -122,7 +125,7 @@ func handleGet(params internal.HandlerFuncParams) ([]byte, error) {
 
 	value := params.GetValues(params.Context, []string{key})[key]
 
-	return []byte(fmt.Sprintf("+%v\r\n", value)), nil
+	return encodeValue(params.Command[0], value)
 }
 
 func handleMGet(params internal.HandlerFuncParams) ([]byte, error) {
@@ -710,13 +713,17 @@ func handleGetdel(params internal.HandlerFuncParams) ([]byte, error) {
 	}
 
 	value := params.GetValues(params.Context, []string{key})[key]
+	res, err := encodeValue(params.Command[0], value)
+	if err != nil {
+		return nil, err
+	}
 	delkey := keys.WriteKeys[0]
 	err = params.DeleteKey(params.Context, delkey)
 	if err != nil {
 		return nil, err
 	}
 
-	return []byte(fmt.Sprintf("+%v\r\n", value)), nil
+	return res, nil
 }
 
 func handleGetex(params internal.HandlerFuncParams) ([]byte, error) {
@@ -733,6 +740,10 @@ func handleGetex(params internal.HandlerFuncParams) ([]byte, error) {
 	}
 
 	value := params.GetValues(params.Context, []string{key})[key]
+	res, err := encodeValue(params.Command[0], value)
+	if err != nil {
+		return nil, err
+	}
 
 	exkey := keys.WriteKeys[0]
 
@@ -740,7 +751,7 @@ func handleGetex(params internal.HandlerFuncParams) ([]byte, error) {
 
 	// Handle no expire options provided
 	if cmdLen == 2 {
-		return []byte(fmt.Sprintf("+%v\r\n", value)), nil
+		return res, nil
 	}
 
 	// Handle persist
@@ -749,12 +760,12 @@ func handleGetex(params internal.HandlerFuncParams) ([]byte, error) {
 	if exCommand == "persist" {
 		// getValues will update key access so no need here
 		params.SetExpiry(params.Context, exkey, time.Time{}, false)
-		return []byte(fmt.Sprintf("+%v\r\n", value)), nil
+		return res, nil
 	}
 
 	// Handle exipre command passed but no time provided
 	if cmdLen == 3 {
-		return []byte(fmt.Sprintf("+%v\r\n", value)), nil
+		return res, nil
 	}
 
 	// Extract time
@@ -782,7 +793,7 @@ func handleGetex(params internal.HandlerFuncParams) ([]byte, error) {
 
 	params.SetExpiry(params.Context, exkey, expireAt, false)
 
-	return []byte(fmt.Sprintf("+%v\r\n", value)), nil
+	return res, nil
 
 }
 
